@@ -26,8 +26,10 @@ Sign(n, p) == IF Cardinality({q \in RowsN(n) \X RowsN(n) : q[1] < q[2] /\ p[q[1]
 RECURSIVE ProdOver(_, _, _)
 ProdOver(D, p, i) == IF i >= D.r THEN 1 ELSE At(D, i, p[i]) * ProdOver(D, p, i + 1)
 RECURSIVE DetSum(_, _)
-DetSum(D, S) == IF S = {} THEN 0 ELSE LET e == CHOOSE e \in S : TRUE IN Sign(D.r, e) * ProdOver(D, e, 0) + DetSum(D, S \ {e})
-DetL(D) == DetSum(D, Perms(D.r))
+DetSum(D, S) == IF S = {} THEN 0 ELSE LET e == CHOOSE e \in S : TRUE IN e[2] * ProdOver(D, e[1], 0) + DetSum(D, S \ {e})
+\* permutations with their signs, tabulated once (a constant-level definition)
+PermSigns == [n \in 0..4 |-> {<<p, Sign(n, p)>> : p \in Perms(n)}]
+DetL(D) == DetSum(D, PermSigns[D.r])
 ReplaceCol(D, j, v) == Mk(D.r, D.c, LAMBDA a, c : IF c = j THEN v[a + 1] ELSE At(D, a, c))
 Cramer(D, v) == LET dd == DetL(D) IN [j \in RowsN(D.r) |-> Norm(DetL(ReplaceCol(D, j, v)), dd)]
 
